@@ -30,6 +30,9 @@ pub enum Resp {
     Http { status: u16, body: String },
     /// 200 with an empty body
     Empty,
+    /// 200 text/event-stream with these chunks, after which the body stays OPEN for `hold_ms`
+    /// (a provider that does not close the connection after its terminal marker)
+    SseThenHold { chunks: Vec<Vec<u8>>, hold_ms: u64 },
 }
 
 /// Pause between the last chunk and a scripted connection abort (coverage only: the oracles of the
@@ -71,6 +74,18 @@ async fn handle(State(p): State<Provider>, AxPath(key): AxPath<String>, headers:
         None => (StatusCode::GONE, "script exhausted").into_response(),
         Some(Resp::Http { status, body }) => (StatusCode::from_u16(status).unwrap_or(StatusCode::INTERNAL_SERVER_ERROR), body).into_response(),
         Some(Resp::Empty) => ([("content-type", "text/event-stream")], Body::empty()).into_response(),
+        Some(Resp::SseThenHold { chunks, hold_ms }) => {
+            let mut items: Vec<Result<Bytes, std::io::Error>> = chunks.into_iter().map(|c| Ok(Bytes::from(c))).collect();
+            items.push(Ok(Bytes::new())); // marker: hold before this one
+            let n = items.len();
+            let stream = futures_util::StreamExt::then(futures_util::stream::iter(items.into_iter().enumerate()), move |(i, item)| async move {
+                if i + 1 == n {
+                    tokio::time::sleep(std::time::Duration::from_millis(hold_ms)).await;
+                }
+                item
+            });
+            ([("content-type", "text/event-stream")], Body::from_stream(stream)).into_response()
+        }
         Some(Resp::Sse { chunks, abort }) => {
             let mut items: Vec<Result<Bytes, std::io::Error>> = chunks.into_iter().map(|c| Ok(Bytes::from(c))).collect();
             if abort {
